@@ -178,3 +178,18 @@ def enc_argv(unit_id, inp):
 
 
 FAMILIES['enc.'] = {'name': 'enc', 'src': 'replay_enc.cpp', 'argv': enc_argv}
+
+
+def ts_argv(unit_id, inp):
+    op = unit_id[len('ts.'):]
+    g = lambda k: inp.get(k, 0)
+    if op == 'add_time_offset':
+        return [op, inp.get('obj.m_secs', g('g_s0')), inp.get('obj.m_ticks', g('g_t0')), g('a_offset'), g('a_tps')]
+    if op == 'get_time_offset':
+        return [op, g('obj.m_secs'), g('obj.m_ticks'), g('ref.m_secs'), g('a_tps'), g('ref.m_ticks')]
+    if op in ('lt', 'le'):
+        return [op, g('obj.m_secs'), g('obj.m_ticks'), g('rhs.m_secs'), 1, g('rhs.m_ticks')]
+    return None
+
+
+FAMILIES['ts.'] = {'name': 'ts', 'src': 'replay_ts.cpp', 'argv': ts_argv}
